@@ -939,6 +939,147 @@ def crop_passthrough(rep, prog, rule):
     rep.floor(rule, "constructors that take a CropBox", n, 2)
 
 
+def _grid_eval(e, env):
+    """value of an integer / bool expression over the parameters in `env` (name -> int; the
+    length of the buffer parameter under "len"); None when a node is not understood"""
+    if not isinstance(e, tuple) or not e:
+        return None
+    k = e[0]
+    if k == "param":
+        return env.get(e[2])
+    if k == "const":
+        return e[1] if isinstance(e[1], (int, bool)) else None
+    if k in ("ovf", "exact", "copy", "deref", "ref"):
+        return _grid_eval(e[1], env)
+    if k == "cast":
+        return _grid_eval(e[2], env)          # sizes on the grid are far from any type bound
+    if k == "field" and str(e[2]) == "0":
+        return _grid_eval(e[1], env)          # `.0` of an overflow pair
+    if k == "bin":
+        a, b = _grid_eval(e[2], env), _grid_eval(e[3], env)
+        if a is None or b is None:
+            return None
+        op = e[1].replace("WithOverflow", "").replace("Unchecked", "")
+        try:
+            return {"Add": lambda: a + b, "Sub": lambda: a - b, "Mul": lambda: a * b,
+                    "Div": lambda: a // b if b else None, "Rem": lambda: a % b if b else None,
+                    "Lt": lambda: a < b, "Le": lambda: a <= b, "Gt": lambda: a > b, "Ge": lambda: a >= b,
+                    "Eq": lambda: a == b, "Ne": lambda: a != b,
+                    "BitAnd": lambda: a & b, "BitOr": lambda: a | b}.get(op, lambda: None)()
+        except Exception:
+            return None
+    if k == "un" and len(e) > 2:
+        a = _grid_eval(e[2], env)
+        return (not a) if a is not None and e[1] == "Not" else None
+    if k in ("call", "callat"):
+        nm = e[1] if k == "call" else e[2]
+        args = e[2] if k == "call" else e[3]
+        if nm == "len" and len(args) == 1:
+            return env.get("len")
+        if nm in ("size", "size_of"):
+            return env.get("size")
+        vals = [_grid_eval(a, env) for a in args]
+        if any(v is None for v in vals):
+            return None
+        if nm == "max" and len(vals) == 2:
+            return max(vals)
+        if nm == "min" and len(vals) == 2:
+            return min(vals)
+        if nm in ("get", "from", "into") and len(vals) == 1:
+            return vals[0]
+        if nm == "saturating_sub" and len(vals) == 2:
+            return max(0, vals[0] - vals[1])
+        if nm == "saturating_mul" and len(vals) == 2:
+            return vals[0] * vals[1]
+        if nm == "div_ceil" and len(vals) == 2:
+            return -(-vals[0] // vals[1]) if vals[1] else None
+        if nm == "is_empty" and len(args) == 1:
+            return env.get("len") == 0
+    return None
+
+
+def size_exact(rep, prog, rule):
+    """acceptance of the typed containers is exactly `len >= width * height`"""
+    rep.rule(rule, "the constructors of the typed containers (TypedImageRef::new, TypedImage::from_pixels, "
+             "from_pixels_slice) accept a pixel container IF AND ONLY IF it holds at least width * height "
+             "pixels: the conditions on the path to `Ok` (predicate helpers inlined) are evaluated on a "
+             "grid of small sizes -- width, height in 0..=5, lengths 0..=30 -- and compared with "
+             "`len >= width * height`. `C04.buffers` proves the 'only if' side for every size (no wrap); "
+             "this clause finds the over-strict and the zero-size cases (`len / max(width, 1) >= height` "
+             "refuses a 0 x 3 image over an empty slice, which needs no pixel)")
+    n = 0
+    for name, bparam, need_size, need_align in BUFFER_VALIDATORS:
+        if need_size:
+            continue
+        fs = [f for f in prog.fns.values() if f.name == name] or prog._by_tail(name)
+        if len(fs) != 1:
+            rep.unk(rule, "%s|anchor" % name.rsplit("::", 1)[-1], "", "constructor not found")
+            continue
+        f = fs[0]
+        n += 1
+        rep.touch(f)
+        ctx = Ctx(prog, f)
+        key = "%s|exact" % name
+        oks = ok_blocks(f)
+        if not oks:
+            rep.unk(rule, key, f.loc, "no Ok return found")
+            continue
+        paths = []
+        for okb in oks:
+            facts = expand_facts(prog, f, ctx.sym, ctx.facts(okb))
+            paths.append([(unexact(resolve_helpers(prog, c)), v) for c, v in facts])
+        wname = f.local_name(1) if f.arg_count >= 1 else "width"
+        bad = None
+        unknown = None
+        for w in range(0, 6):
+            for h in range(0, 6):
+                for ln in range(0, 31):
+                    env = {"len": ln}
+                    for i in range(1, f.arg_count + 1):
+                        nm = f.local_name(i)
+                        ty = f.local_ty(i) or ""
+                        if ty == "u32" and "width" not in env and nm not in env:
+                            env[nm] = None
+                    ints = [f.local_name(i) for i in range(1, f.arg_count + 1) if (f.local_ty(i) or "") == "u32"]
+                    if len(ints) != 2:
+                        unknown = "the constructor does not take (width, height) as its two u32 parameters"
+                        break
+                    env[ints[0]], env[ints[1]] = w, h
+                    acc = False
+                    for facts in paths:
+                        vals = []
+                        for c, v in facts:
+                            r = _grid_eval(c, env)
+                            if r is None:
+                                unknown = "condition %s is not evaluated" % fmt(c)[:80]
+                                break
+                            vals.append(bool(r) == bool(v))
+                        if unknown:
+                            break
+                        if all(vals):
+                            acc = True
+                    if unknown:
+                        break
+                    ref = ln >= w * h
+                    if acc != ref and bad is None:
+                        bad = (w, h, ln, acc, ref)
+                if unknown:
+                    break
+            if unknown:
+                break
+        if unknown:
+            rep.unk(rule, key, f.loc, unknown)
+        elif bad:
+            w, h, ln, acc, ref = bad
+            rep.bad(rule, key, f.loc, "%s %s a %d x %d image over a container of %d pixels, which %s: "
+                    "the size test on its Ok path is not `len >= width * height`" % (
+                        f.name, "accepts" if acc else "refuses", w, h, ln,
+                        "is too small" if acc else "is large enough (%d needed)" % (w * h)))
+        else:
+            rep.ok(rule, key, f.loc, "acceptance equals len >= width * height on the whole grid (6 x 6 x 31)")
+    rep.floor(rule, "typed container constructors", n, 3)
+
+
 def crop_route(rep, prog, rule):
     """the user's crop box reaches the validator / the view untouched"""
     rep.rule(rule, "a CropBox that a function RECEIVED (a parameter, the payload of "
